@@ -17,10 +17,19 @@ def run(ctx):
         destlib.mc(ctx, "Destination_c06.cfg", dict(base, N=4))
         destlib.mc(ctx, "Destination_c06.cfg", dict(base, N=4, Q=2, IOB=2, KB=2, MaxChanges=0))
         destlib.mc(ctx, "Destination_c06.cfg", dict(base, Spool=True, RT=1, SB=1))
+    # spooling enabled, outage first (lines handed while the endpoint is absent are spooled), then the endpoint comes back as
+    # a black hole / pauses / (thorough) closes or changes again while the spool is being unspooled: the sender still returns
+    # although nothing is assumed about the connection writer and the endpoint (no fairness)
+    spooled = dict(base, Spool=True, RT=1, SB=1, InitModes={"absent"}, Modes={"blackhole", "paused", "closing"}, MaxChanges=1)
+    destlib.mc(ctx, "Destination_c06.cfg", spooled)
+    if not q:
+        destlib.mc(ctx, "Destination_c06.cfg", dict(spooled, Modes={"blackhole", "paused", "closing", "healthy"}, MaxChanges=2))
     # non-vacuity: named deviations of the model violate the properties
     small = dict(base, InitModes={"blackhole", "absent", "healthy"}, Modes={"blackhole"}, MaxChanges=0)
     destlib.mc(ctx, "Destination_c06.cfg", dict(small, Mutant="BlockingSend"), expect={"temporal"}, count=False)
     destlib.mc(ctx, "Destination_c06.cfg", dict(small, Mutant="DialInLoop"), expect={"temporal"}, count=False)
+    # the unspool branch hands its line over with a blocking send: rejected (the relay sits on a full connection queue)
+    destlib.mc(ctx, "Destination_c06.cfg", dict(spooled, Mutant="BlockingUnspool"), expect={"temporal"}, count=False)
     destlib.mc(ctx, "Destination_c06.cfg", dict(small, Mutant="DownDropNoCount"), expect={"Conservation_steady", "SteadyDown"}, count=False)
     destlib.mc(ctx, "Destination_c06.cfg", dict(small, Mutant="DropNoCount"), expect={"Conservation_steady", "SteadyHealthy"}, count=False)
     # a healthy endpoint that pauses (no progress for a while, then reads everything): the writer blocks, the relay drops
@@ -37,6 +46,14 @@ def run(ctx):
     scns = destlib.c06_scenarios(ctx)
     ctx.log("C06 scenarios: %d" % len(scns))
     events, crashed = destlib.run_driver(ctx, "TestC06", "VERIF_C06_SCN", scns, "c06", timeout=ctx.pick(900, 3000))
+    # ... and with spooling enabled: outage, then a bad endpoint while the spool is replayed (own driver process: hooks on)
+    sscns = []
+    if not crashed:
+        sscns = destlib.c06_spool_scenarios(ctx, max(s["id"] for s in scns) + 1)
+        ctx.log("C06 spool-replay scenarios: %d" % len(sscns))
+        ev2, crashed = destlib.run_driver(ctx, "TestC06Spool", "VERIF_C06S_SCN", sscns, "c06s", timeout=ctx.pick(900, 3000))
+        events = events + ev2
+        scns = scns + sscns
     byid = {s["id"]: s for s in scns}
     if crashed:
         ctx.violation("relay-panics", "the relay panicked while running against a misbehaving endpoint", crashed)
@@ -44,21 +61,32 @@ def run(ctx):
         return
     touts = [e for e in events if e["ev"] == "timeout"]
     if touts:
-        raise Machinery("C06 driver could not reach its steady phase: %s" % json.dumps(touts[:3]))
+        raise Machinery("C06 driver could not reach its steady phase / set its scenario up: %s" % json.dumps(touts[:3]))
     stalls = {e["scn"]: e for e in events if e["ev"] == "stall"}
     lats = [e for e in events if e["ev"] == "lat"]
     phases = [e for e in events if e["ev"] == "phase"]
     if len(lats) != len(scns):
         raise Machinery("dead driver: %d latency records for %d scenarios" % (len(lats), len(scns)))
 
+    replays = {e["scn"]: e for e in events if e["ev"] == "replay"}
+    ugates = {e["scn"]: e for e in events if e["ev"] == "ugate"}
+    SPOOL_KINDS = dict(spoolbh="accepts and never reads", spoolstall="stalls, then resumes", spoolclose="closes mid-replay",
+                       spoolgate="connection writer held at hd.recv (hook gate)")
+
     # 3. TLC decides (level A = the identities and the bound of the property statement)
     def on_reject(rec, src, block):
         s = byid.get(src.get("scn"), {})
         cls = "%s route=%s" % (s.get("kind"), s.get("route"))
         if rec["ev"] == "lat":
+            extra = ""
+            rp = replays.get(src.get("scn"))
+            if rp:
+                extra = (" [spooling enabled: %s lines spooled during an outage, endpoint back (%s), %d lines replayed from the spool, "
+                         "%d of them taken while the connection queue (connbuf %d) was full, %d of those dropped and counted]"
+                         % (rp.get("backlog"), SPOOL_KINDS.get(s.get("kind")), rp["unspooled"], rp["unspool_full"], s.get("connbuf"), rp["unspool_drop"]))
             ctx.violation("dispatch-stalls endpoint=" + cls,
-                          "Route.Dispatch took %.3f s (bound 5 s; stuck=%s) with a %s endpoint" % (rec["max_us"] / 1e6, rec["stuck"], s.get("kind")),
-                          dict(scenario=s, event=src))
+                          "Route.Dispatch took %.3f s (bound 5 s; stuck=%s) with a %s endpoint%s" % (rec["max_us"] / 1e6, rec["stuck"], s.get("kind"), extra),
+                          dict(scenario=s, event=src, replay=rp))
         elif rec["ev"] == "phase":
             extra = ""
             st = stalls.get(src.get("scn"))
@@ -83,6 +111,18 @@ def run(ctx):
         weak = [e for e in stalls.values() if not e["saturated"] or e["held_ms"] < 6 * e["flush_ms"]]
         if weak:
             raise Machinery("stall-resume scenario did not block the connection writer for many flush periods: %s" % json.dumps(weak[:2]))
+    # the spool-replay scenarios must really have had a line taken from the spool meet a full connection queue (natural
+    # timing: `cycles` times; gated variant: the gate must have fired); otherwise they say nothing: exit 2, never a verdict
+    if not ctx.violations:
+        if len(replays) != len(sscns):
+            raise Machinery("dead driver: %d replay records for %d spool-replay scenarios" % (len(replays), len(sscns)))
+        badg = [g for g in ugates.values() if g["outcome"] != "fired"]
+        ngate = [s for s in sscns if s["kind"] == "spoolgate"]
+        if badg or len(ugates) != len(ngate):
+            raise Machinery("spool-replay gate did not fire (%d of %d): %s" % (len(ugates) - len(badg), len(ngate), json.dumps(badg[:2])))
+        weak = [e for e in replays.values() if not e["saturated"] or e["unspool_full"] < 1]
+        if weak:
+            raise Machinery("spool-replay scenario did not fill the connection queue during the replay: %s" % json.dumps(weak[:2]))
     for p in phases:
         if p["steady"] == "paused" and p["down"] > 0:
             ctx.note("stall-resume scenario %s: the relay saw a down phase although the endpoint never closed (conn_down_no_spool=%d, "
@@ -129,9 +169,15 @@ def run(ctx):
     cov["slow_conn_drops_in_healthy_phases"] = sum(p["slow_conn"] for p in phases if p["steady"] == "healthy")
     cov["stall_resume"] = [dict(scn=e["scn"], kind=e["kind"], held_ms=e["held_ms"], flush_ms=e["flush_ms"], blocked_after_lines=e["blocked_at"] - e["stall_at"],
                                 slow_conn_at_resume=e["slow_conn_resume"]) for e in stalls.values()]
+    cov["spool_replay"] = [dict(scn=e["scn"], kind=e["kind"], connbuf=e["connbuf"], backlog=e.get("backlog"), unspooled=e["unspooled"],
+                                unspooled_into_full_queue=e["unspool_full"], dropped_from_spool=e["unspool_drop"], fill_ms=e.get("fill_ms"),
+                                forced=e["forced"]) for e in replays.values()]
     cov["rule"] = ("scenarios = endpoint behaviour (refuse, SYN-drop, black hole, 1 byte/10 ms, healthy, close after k bytes, "
                    "stall-resume (stops reading for >= 12 flush periods with the writer blocked, never closes, reads to the end), "
-                   "stall-close (closes while the writer is blocked), mixed route with one bad endpoint%s) x (connbuf, iobuf, flush) settings %s, every Route.Dispatch call timed "
+                   "stall-close (closes while the writer is blocked), mixed route with one bad endpoint%s; with spooling enabled: outage "
+                   "(backlog in the disk spool), then the endpoint comes back as a black hole / stalls and resumes / closes mid-replay, "
+                   "and a hook-gated variant with the connection writer held, traffic going on during the replay) x (connbuf, iobuf, flush) "
+                   "settings %s, every Route.Dispatch call timed "
                    "(evaluations = calls); distinct_nontrivial = latency records + steady phases whose identity involved > 0 lines"
                    % ("" if q else ", mid-stream behaviour switches", sorted({(s["connbuf"], s["iobuf"], s["flush_ms"]) for s in scns})))
     bh = [p for p in phases if p["endpoint"] == "blackhole"]
@@ -148,5 +194,8 @@ def run(ctx):
                         "a throttled endpoint that stays connected is treated as healthy once it has caught up",
                         "stall-resume: 'writer blocked' is observed as no line written to the connection while lines keep coming and are being "
                         "dropped (>= 50); the endpoint resumes only after that has lasted max(400 ms, 12 flush periods) without interruption; identity at quiescence "
-                        "handed = received + slow_conn + conn_down_no_spool (the last is 0 unless the relay gave the connection up)"]
+                        "handed = received + slow_conn + conn_down_no_spool (the last is 0 unless the relay gave the connection up)",
+                        "spool-replay scenarios (spooling enabled): only the Dispatch time bound is judged (losses with spooling on are C07's subject); "
+                        "'a line taken from the spool met a full connection queue' is observed through the verif hook (relay.unspool with len(In) == cap(In)); "
+                        "a stalled endpoint resumes after 6 s when a Dispatch call is still pending (the call then exceeded the bound)"]
     cov["trusted_base"] = ["TLC", "harness/dest driver (records only)", "kernel loopback TCP"]
